@@ -26,6 +26,8 @@
 (*                entry point has a use for it: every one answers none        *)
 (*   f = "colon"  tag a, ':', rest; w = "hex" (rest is hex for bytes d) or    *)
 (*                "nothex"; w2 = "utf8" (d2 = UTF-8 bytes of rest) / "noutf8" *)
+(*                The tag ends at the FIRST ':'; the rest is EVERYTHING after *)
+(*                it and may contain ':' itself (then it is no hex)           *)
 (*   f = "num"    a plain numeral of v digits; w = "dec" (all digits decimal: *)
 (*                d = value read in base 10) or "hex" (d = value in base 16); *)
 (*                d2 = the bytes the digits denote as hex (v even), else <<>> *)
@@ -251,4 +253,23 @@ ReparseBy(o) ==
     [] o.k = "seed32" -> {"bip32", "hierarchical_key", "secret", "parse"}
     [] o.k = "electrum" -> {"hierarchical_key"}
 Faithful(N, o) == HasReser(N, o) => \A e \in ReparseBy(o) : Out(N, e, Reser(N, o)) = {o}
+
+\* Faithfulness speaks about the OBJECT, not about one of its methods: Reser(N, o) is the text of o through every public
+\* accessor by which an object of its kind states its own text (Via: the names under which pycoin's objects do so; an
+\* object is asked through those it really has).  What an object PRINTS about itself (repr / str) may besides be the text
+\* of its public counterpart - a private extended key shows its public half: same header and chain code under the family's
+\* public version, key field = compressed SEC of k*G, an uninterpreted term (TLC cannot multiply curve points; the harness
+\* finishes it) - but never a text of another kind or family.
+Via(o) ==
+  CASE o.k \in {"bip32", "bip49", "bip84"} -> {"hwif", "as_text"}
+    [] o.k = "key" /\ o.p -> {"wif", "as_text"}
+    [] o.k = "key" /\ ~o.p -> {"as_text"}
+    [] o.k = "contract" -> {"address"}
+    [] o.k = "script" -> {"disassemble"}
+    [] OTHER -> {}
+Printers == {"repr", "str"}
+PublicHalf(N, o) ==
+  IF o.k \in {"bip32", "bip49", "bip84"} /\ o.p /\ ExtPfx(N, o.k, "pub") # <<>>
+  THEN <<[op |-> "extpub", pfx |-> ExtPfx(N, o.k, "pub"), head |-> SubSeq(o.d, 1, 41), k |-> SubSeq(o.d, 43, 74)]>>
+  ELSE <<>>
 =============================================================================
